@@ -268,6 +268,20 @@ func pcCompare(f *pcF, classify func(*pcAtom) string, want func(env map[string]b
 type symCtx struct {
 	call   ssa.CallInstruction
 	parent *symCtx
+	// fn: the function entered, when the call goes through a function value
+	// that was followed back to a function (nil: the static callee of call)
+	fn *ssa.Function
+}
+
+// callee: the function the context stands in.
+func (c *symCtx) callee() *ssa.Function {
+	if c == nil || c.call == nil {
+		return nil
+	}
+	if c.fn != nil {
+		return c.fn
+	}
+	return c.call.Common().StaticCallee()
 }
 
 func (c *symCtx) depth() int {
@@ -482,7 +496,7 @@ func (s *Sym) key1(v ssa.Value, ctx *symCtx) string {
 		}
 		if ctx != nil && ctx.call != nil {
 			cc := ctx.call.Common()
-			if cc.StaticCallee() == fn && idx >= 0 && idx < len(cc.Args) {
+			if ctx.callee() == fn && idx >= 0 && idx < len(cc.Args) {
 				return s.Key(cc.Args[idx], ctx.parent)
 			}
 		}
@@ -806,7 +820,7 @@ func (s *Sym) cond(v ssa.Value, ctx *symCtx, d int) *pcF {
 		if ctx != nil && ctx.call != nil {
 			fn := x.Parent()
 			for i, p := range fn.Params {
-				if p == x && ctx.call.Common().StaticCallee() == fn && i < len(ctx.call.Common().Args) {
+				if p == x && ctx.callee() == fn && i < len(ctx.call.Common().Args) {
 					return s.cond(ctx.call.Common().Args[i], ctx.parent, d+1)
 				}
 			}
@@ -831,13 +845,13 @@ func (s *Sym) cond(v ssa.Value, ctx *symCtx, d int) *pcF {
 	case *ssa.BinOp:
 		return s.cmp(x, ctx, d)
 	case *ssa.Call:
-		if s.Expand && ctx.depth() < 3 {
+		if s.Expand && ctx.depth() < 5 {
 			if f := s.expandCall(x, 0, 1, ctx, d); f != nil {
 				return f
 			}
 		}
 	case *ssa.Extract:
-		if c, ok := x.Tuple.(*ssa.Call); ok && s.Expand && ctx.depth() < 3 {
+		if c, ok := x.Tuple.(*ssa.Call); ok && s.Expand && ctx.depth() < 5 {
 			if f := s.expandCall(c, x.Index, c.Call.Signature().Results().Len(), ctx, d); f != nil {
 				return f
 			}
@@ -853,6 +867,13 @@ func (s *Sym) opaque(v ssa.Value, ctx *symCtx) *pcF {
 // expandCall: a static in-module callee without loops that returns one bool.
 func (s *Sym) expandCall(c *ssa.Call, idx, nres int, ctx *symCtx, d int) *pcF {
 	fn := c.Call.StaticCallee()
+	viaValue := false
+	if fn == nil && !c.Call.IsInvoke() {
+		// a predicate handed in as a parameter: the named function the caller passed
+		if g, ok := s.Resolve(c.Call.Value, ctx).(*ssa.Function); ok && g.Signature.Recv() == nil && len(g.FreeVars) == 0 {
+			fn, viaValue = g, true
+		}
+	}
 	if fn == nil || fn.Blocks == nil || fn.Pkg == nil || !strings.HasPrefix(fn.Pkg.Pkg.Path(), modPath) {
 		return nil
 	}
@@ -860,7 +881,7 @@ func (s *Sym) expandCall(c *ssa.Call, idx, nres int, ctx *symCtx, d int) *pcF {
 		return nil
 	}
 	for p := ctx; p != nil; p = p.parent {
-		if p.call != nil && p.call.Common().StaticCallee() == fn {
+		if p.callee() == fn {
 			return nil
 		}
 	}
@@ -875,6 +896,9 @@ func (s *Sym) expandCall(c *ssa.Call, idx, nres int, ctx *symCtx, d int) *pcF {
 		}
 	}
 	nctx := &symCtx{call: c, parent: ctx}
+	if viaValue {
+		nctx.fn = fn
+	}
 	out := pcZ
 	for _, b := range fn.Blocks {
 		ret, ok := b.Instrs[len(b.Instrs)-1].(*ssa.Return)
@@ -1025,7 +1049,7 @@ func (s *Sym) nilExpand(v ssa.Value, ctx *symCtx, d int) *pcF {
 		return nil
 	}
 	for p := ctx; p != nil; p = p.parent {
-		if p.call != nil && p.call.Common().StaticCallee() == fn {
+		if p.callee() == fn {
 			return nil
 		}
 	}
@@ -1495,7 +1519,7 @@ func (s *Sym) Resolve(v ssa.Value, ctx *symCtx) ssa.Value {
 			return v
 		}
 		cc := ctx.call.Common()
-		fn := cc.StaticCallee()
+		fn := ctx.callee()
 		if fn == nil || p.Parent() != fn {
 			return v
 		}
@@ -1534,7 +1558,7 @@ func (s *Sym) retTableCtx(fn *ssa.Function, idx int, ctx *symCtx, depth int) []r
 				g := call.Call.StaticCallee()
 				recursive := g == fn
 				for c := ctx; c != nil; c = c.parent {
-					if c.call != nil && c.call.Common().StaticCallee() == g {
+					if c.callee() == g {
 						recursive = true
 					}
 				}
